@@ -238,6 +238,8 @@ class Exec:
 
     def wf(self, st, v):
         """well-formedness facts of a value read from the heap / inputs: refs are allocated, lengths >= 0"""
+        if getattr(self, 'no_facts', 0):
+            return v       # inside a quantified formula: terms mention bound variables, no facts about them
         if isinstance(v, (VRef, VDict, VList)):
             k = ('wf', v.t.get_id(), st.alloc.get_id())
             if k not in st.facts_seen and not z3.is_int_value(v.t):
@@ -311,16 +313,12 @@ class Exec:
 
     # dicts -----------------------------------------------------------------
     def _dd(self, st, d):
-        key = ('dd', tyname(d.k))
+        key = ('dd', tyname(d.k), getattr(d, 'tag', None))
         return key, self.heap_get(st, key, z3.ArraySort(I, z3.ArraySort(sort_of(d.k), Bo)))
 
     def _dv(self, st, d):
-        key = ('dv', tyname(d.k), tyname(d.v))
+        key = ('dv', tyname(d.k), tyname(d.v), getattr(d, 'tag', None))
         return key, self.heap_get(st, key, z3.ArraySort(I, z3.ArraySort(sort_of(d.k), sort_of(d.v))))
-
-    def _dc(self, st):
-        key = ('dc',)
-        return key, self.heap_get(st, key, z3.ArraySort(I, I))
 
     def dict_dom(self, st, d):
         return z3.Select(self._dd(st, d)[1], d.t)
@@ -328,10 +326,15 @@ class Exec:
     def dict_vals(self, st, d):
         return z3.Select(self._dv(st, d)[1], d.t)
 
+    def card_fn(self, d):
+        return z3.Function('card:' + tyname(d.k), z3.ArraySort(sort_of(d.k), Bo), I)
+
     def dict_card(self, st, d):
-        c = z3.Select(self._dc(st)[1], d.t)
+        """number of keys: an uninterpreted function of the domain map (equal domains have equal cardinality),
+        with its defining facts instantiated at every update"""
+        c = self.card_fn(d)(self.dict_dom(st, d))
         k = ('card', c.get_id())
-        if k not in st.facts_seen:
+        if k not in st.facts_seen and not getattr(self, 'no_facts', 0):
             st.facts_seen.add(k)
             st.fact(c >= 0)
         return c
@@ -355,32 +358,30 @@ class Exec:
         v = coerce(v, d.v)
         kd, dd = self._dd(st, d)
         kv, dv = self._dv(st, d)
-        kc, dc = self._dc(st)
         dom = z3.Select(dd, d.t)
-        had = z3.Select(dom, to_term(k))
-        card = self.dict_card(st, d)
-        self.heap_set(st, kc, z3.Store(dc, d.t, z3.If(had, card, card + 1)))
-        self.heap_set(st, kd, z3.Store(dd, d.t, z3.Store(dom, to_term(k), True)))
+        new_dom = z3.Store(dom, to_term(k), True)
+        f = self.card_fn(d)
+        st.fact(f(new_dom) == f(dom) + z3.If(z3.Select(dom, to_term(k)), 0, 1), f(dom) >= 0)
+        self.heap_set(st, kd, z3.Store(dd, d.t, new_dom))
         self.heap_set(st, kv, z3.Store(dv, d.t, z3.Store(z3.Select(dv, d.t), to_term(k), to_term(v))))
 
     def dict_del(self, st, d, k):
         k = coerce(k, d.k)
         kd, dd = self._dd(st, d)
-        kc, dc = self._dc(st)
         dom = z3.Select(dd, d.t)
-        had = z3.Select(dom, to_term(k))
-        card = self.dict_card(st, d)
-        self.heap_set(st, kc, z3.Store(dc, d.t, z3.If(had, card - 1, card)))
-        self.heap_set(st, kd, z3.Store(dd, d.t, z3.Store(dom, to_term(k), False)))
+        new_dom = z3.Store(dom, to_term(k), False)
+        f = self.card_fn(d)
+        st.fact(f(new_dom) == f(dom) - z3.If(z3.Select(dom, to_term(k)), 1, 0), f(new_dom) >= 0)
+        self.heap_set(st, kd, z3.Store(dd, d.t, new_dom))
 
     def new_dict(self, st, k, v):
         r = st.alloc
         st.alloc = st.alloc + 1
         d = VDict(r, k, v)
         kd, dd = self._dd(st, d)
-        kc, dc = self._dc(st)
-        self.heap_set(st, kd, z3.Store(dd, r, z3.K(sort_of(k), False)))
-        self.heap_set(st, kc, z3.Store(dc, r, 0))
+        empty = z3.K(sort_of(k), False)
+        st.fact(self.card_fn(d)(empty) == 0)
+        self.heap_set(st, kd, z3.Store(dd, r, empty))
         return d
 
     # lists -----------------------------------------------------------------
@@ -395,7 +396,7 @@ class Exec:
     def list_len(self, st, l):
         n = z3.simplify(z3.Select(self._ll(st)[1], l.t))
         k = ('ll', n.get_id())
-        if k not in st.facts_seen and not z3.is_int_value(n):
+        if k not in st.facts_seen and not z3.is_int_value(n) and not getattr(self, 'no_facts', 0):
             st.facts_seen.add(k)
             st.fact(n >= 0)
         return n
